@@ -259,21 +259,18 @@ def _arm_bodies(p, f):
         raise AnalysisError("unrecognised idiom: Optimizer._optimize has no isinstance dispatch over value kinds")
     ch = max(chains, key=lambda c: len(c.arms))
     out = {}
-    cur = ch.head
-    while True:
-        arm = [a for a in ch.arms if a.test is cur.test][0]
+    # every arm's test belongs to one `if` (of an elif chain or of a sequence of `if ...: return`): its body is the arm
+    for arm in ch.arms:
+        if not arm.body:
+            continue
         kinds = [c.name for c in arm.classes] + [t.split(".")[-1] for t in arm.other_types]
-        body, xname = cur.body, ch.subject
+        body, xname = arm.body, arm.subject_name
         if len(body) == 1 and isinstance(body[0], ast.Return) and isinstance(body[0].value, ast.Call) and isinstance(body[0].value.func, ast.Attribute) and isinstance(body[0].value.func.value, ast.Name) and f.cls is not None:
             m = p.lookup_method(f.cls, body[0].value.func.attr)
             if m is not None and len(body[0].value.args) == 1 and norm(body[0].value.args[0]) == ch.subject and len(m.params) >= 2:
                 body, xname = m.node.body, m.params[1]
         for k in kinds:
             out[k] = (body, xname)
-        if len(cur.orelse) == 1 and isinstance(cur.orelse[0], ast.If):
-            cur = cur.orelse[0]
-        else:
-            break
     return out
 
 
@@ -372,7 +369,15 @@ def r6(p, rep):
     pattern_calls = [n for n in common.nodes_of(common.with_helpers(p, g)) if isinstance(n, ast.Call) and len(n.args) == 2 and norm(n.args[1]).endswith("._optimize")]
     if not fired or not pattern_calls:
         raise AnalysisError("unrecognised idiom: pattern application / fired return not found in Optimizer._optimize")
-    memo = [n for n in walk_no_nested(g.node) if isinstance(n, ast.Expr) and "._set" in norm(n.value)]
+    # the memo: the self attribute that the lookup `self.M[id(x)]` reads; its writers are the methods that store into it
+    looked_up = {n.value.attr for n in walk_no_nested(g.node) if isinstance(n, ast.Subscript) and isinstance(n.ctx, ast.Load) and isinstance(n.value, ast.Attribute) and isinstance(n.value.value, ast.Name) and n.value.value.id == g.params[0]}
+    stored = {n.value.attr: m.name for m in g.cls.methods.values() for n in walk_no_nested(m.node) if isinstance(n, ast.Subscript) and isinstance(n.ctx, ast.Store) and isinstance(n.value, ast.Attribute) and isinstance(n.value.value, ast.Name) and n.value.value.id == m.params[0]}
+    memo_attrs = looked_up & set(stored)
+    writers = {m.name for m in g.cls.methods.values() for n in walk_no_nested(m.node) if isinstance(n, ast.Subscript) and isinstance(n.ctx, ast.Store) and isinstance(n.value, ast.Attribute) and n.value.attr in memo_attrs}
+    if not memo_attrs or not writers:
+        raise AnalysisError("unrecognised idiom: Optimizer has no id-keyed memo of rewritten nodes")
+    memo = [n for n in walk_no_nested(g.node) if isinstance(n, ast.Expr) and any(isinstance(x, ast.Attribute) and x.attr in writers and isinstance(x.value, ast.Name) and x.value.id == g.params[0] for x in ast.walk(n.value))]
+    memo += [n for n in walk_no_nested(g.node) if isinstance(n, ast.Assign) and any(isinstance(t, ast.Subscript) and isinstance(t.value, ast.Attribute) and t.value.attr in memo_attrs for t in n.targets)]
     for r in fired:
         rn = cfgg.node_for(r)
         ok1 = any(cfgg.dominates(cfgg.node_for(s_), rn) for s_ in setc)
